@@ -184,9 +184,16 @@ fn compile_child(a: &[&str]) -> String {
     }
     let mut paths = Vec::new();
     for (i, spec) in a[4..].iter().enumerate() {
-        let p = root.join("src").join(format!("s{i}.json"));
+        let mut p = root.join("src").join(format!("s{i}.json"));
         match spec.as_bytes().first() {
             Some(b'T') => std::fs::write(&p, unhex(&spec[1..])).unwrap(),
+            // same base name in a directory of its own: src/d<i>/sample.json
+            Some(b'S') => {
+                let dir = root.join("src").join(format!("d{i}"));
+                std::fs::create_dir_all(&dir).unwrap();
+                p = dir.join("sample.json");
+                std::fs::write(&p, unhex(&spec[1..])).unwrap();
+            }
             Some(b'D') => std::fs::create_dir_all(&p).unwrap(),
             _ => {}
         }
